@@ -25,6 +25,8 @@ pub mod c09;
 #[cfg(kani)]
 pub mod c12;
 #[cfg(kani)]
+pub mod c13;
+#[cfg(kani)]
 pub mod c16;
 #[cfg(kani)]
 pub mod c17;
